@@ -243,7 +243,11 @@ struct ConvTupleTarget : Target {
         if (!live(o)) return false;
         if (op == "assign") { if (!live(src)) return false; *obj(o) = *obj(src); { M tmp = model[src]; model[o] = tmp; } env->applied(op, on + "<-o" + std::to_string(src), true); env->interesting = true; return true; }
         if (op == "convert_assign") {   // assign-from(other) where the other tuple has a different element-type list
-            long k = env->next_value(); S s = make_src(k, seq); *obj(o) = R(s); model[o] = convert_model(make_msrc(k, seq), seq);
+            long k = env->next_value(); S s = make_src(k, seq);
+            // spelled as a user writes it: `dst = src` - today that is the converting constructor plus copy assignment, and it is
+            // whatever converting operator= the class may grow
+            if constexpr (std::is_assignable<R&, const S&>::value) *obj(o) = s; else *obj(o) = R(s);
+            model[o] = convert_model(make_msrc(k, seq), seq);
             env->applied(op, on, true); env->interesting = true; return true;
         }
         if (op == "write") { long i = n % (long)N; write_at(o, i, env->next_value(), seq); env->applied(op, on + " i=" + std::to_string(i), true); return true; }
